@@ -50,6 +50,19 @@ def c06():
         flat = sum(([sorted(c)] for c in chunks), [])
         op = create("f0", "/u", L_FIXED, sum(flat, []), chunks=[len(c) for c in flat], unordered=un(2, mm))
         out.append([op])
+    # a large bin table with narrow (int32) ids, unsorted chunks + ensure_sorted: any packed
+    # (bin1 * n_bins + bin2) key computed in 32 bits wraps beyond 46340 bins
+    big = lay(["L"], "uniform:50000:1")
+    hi = [(46341 + 7 * k, 46341 + 7 * k + (k % 5), 1 + k % 3) for k in range(60)] + \
+         [(k * 811, k * 811 + 3, 2) for k in range(40)]
+    import random as _r
+    rr = _r.Random(5)
+    c1, c2 = hi[::2], hi[1::2]
+    rr.shuffle(c1)
+    rr.shuffle(c2)
+    for mm in (200, 1):
+        op = create("f0", "/u", big, c1 + c2, chunks=[len(c1), len(c2)], unordered=un(7, mm, True), id_dtype="int32")
+        out.append([op])
     # all-empty inputs: zero chunks, one empty chunk, leading empty rows with buffer 1
     # (zero chunks is outside C06's quantifier "1..k chunks": CoolerMerger([]) raises IndexError; not generated)
     out.append([create("f0", "/u", L_FIXED, [], chunks=[0], unordered=un(1, 200))])
